@@ -536,6 +536,13 @@ def mem_exprs(q, rng):
             ("range(%d).select([$, 'v']).toDict($[0], $[1]).keys().len()", C(k32)),
             ('set(range(%d)).len()', C(k32)), ('range(%d).toSet().union(range(%d).toSet()).len()', C(k32 // 2 + 1), C(k32)),
         ]
+        # integers are values too: arbitrary-precision results must respect the quota
+        templates += [('pow(2, %d)', 8 * k), ('shiftBitsLeft(1, %d)', 8 * k), ('pow(2, %d) + 1', 8 * k), ('-pow(2, %d)', 8 * k),
+                      ('str(pow(2, %d)).len()', 8 * k), ('[pow(2, %d)].len()', 8 * k), ('{a => shiftBitsLeft(1, %d)}.len()', 8 * k),
+                      ('range(%d).aggregate($1 * $1 + 1, 3).sign()', min(k.bit_length() + 6, 26)),
+                      ('pow(2, %d) * pow(2, %d)', 4 * k, 4 * k), ('bitwiseOr(shiftBitsLeft(1, %d), 1)', 8 * k),
+                      ('abs(-pow(2, %d))', 8 * k), ('max(pow(2, %d), 1)', 8 * k), ('pow(2, %d) > 1', 8 * k),
+                      ('int(pow(2.0, 1000) * pow(2.0, %d))', min(k, 20))]
         for t in templates:
             e.append((t[0] % tuple(t[1:]), False))
     # values whose in-flight form is small but whose finalised form is big (frozen dicts, tuples at the boundary)
